@@ -76,6 +76,17 @@ pub fn replay_item(out: &mut Out, bv: &Value, rng: &mut Rng, n: usize) {
                 let (text, t) = match name { "bang" => ("@!", T::Fact(Box::new(T::Ans(1)))), "deg" => ("@°", T::Deg(Box::new(T::Ans(1)))), _ => ("@rad", T::Rad(Box::new(T::Ans(1)))) };
                 let exp = expected(e, &t, &Asg::default(), &ph);
                 let o = checked_call(out, e, text, &ph, Some(&exp), json!({"v": "accept"}), true, &ctx);
+                // chains of the postfix operator: x!!, (x!)!, x°°, x rad rad - each application on the result of the previous one
+                let (t2, text2, text3) = match name {
+                    "bang" => (T::Fact(Box::new(T::Fact(Box::new(T::Ans(1))))), "@!!", "(@!)!"),
+                    "deg" => (T::Deg(Box::new(T::Deg(Box::new(T::Ans(1))))), "@°°", "(@°)°"),
+                    _ => (T::Rad(Box::new(T::Rad(Box::new(T::Ans(1))))), "@radrad", "(@rad)rad"),
+                };
+                if x.abs() <= 6.0 || name != "bang" {
+                    let exp2 = expected(e, &t2, &Asg::default(), &ph);
+                    checked_call(out, e, text2, &ph, Some(&exp2), json!({"v": "accept"}), true, &ctx);
+                    checked_call(out, e, text3, &ph, Some(&exp2), json!({"v": "accept"}), true, &ctx);
+                }
                 // recurrence x! = x * (x-1)! on non-integers (an identity, independent of the Gamma oracle)
                 if name == "bang" && (e == "f64") && (x - x.round()).abs() >= 0.01 && x.abs() < 100.0 && *x > -99.0 {
                     if let (Outcome::Ok(Val::F(a)), (Outcome::Ok(Val::F(b)), _)) = (&o, call(e, "@!", &Val::F(*x - 1.0))) {
